@@ -30,7 +30,8 @@ type seg struct {
 var errBlockedForever = errors.New("sim: read blocked forever (idle, no deadline)")
 
 // simConn plays a script of timed segments. Time is virtual: it advances only when a Read has to
-// wait for the next segment (or for the deadline). A Read never returns bytes of two segments.
+// wait for the next segment (or for the deadline). A Read never returns bytes of two segments; a
+// segment without bytes is a Read returning (0, nil).
 type simConn struct {
 	t0          time.Time
 	now         time.Time // virtual clock
@@ -52,6 +53,8 @@ type simConn struct {
 	writes  []time.Time
 	onWrite func(c *simConn)
 	fired   int
+
+	emptyReads int
 }
 
 // settle fires the local writes that fall inside the wait of a parked Read (strictly before
@@ -137,6 +140,12 @@ func (c *simConn) Read(p []byte) (int, error) {
 		c.segs = c.segs[1:]
 		c.lastArrival = at
 		c.advance(at)
+		if len(s.data) == 0 {
+			// a Read that returns no byte and no error (net.Pipe hands a peer's zero-length
+			// Write to the parked reader like this; wrapped conns may do it too)
+			c.emptyReads++
+			return 0, nil
+		}
 		c.pending = s.data
 	}
 	lim := len(p)
@@ -278,6 +287,41 @@ func genScript(c *vh.Ctx) script {
 	if len(stream) == 0 {
 		s.segs = nil
 	}
+	if r.Intn(2) == 0 {
+		// Reads that return no byte, anywhere: before a frame, inside the length prefix, between
+		// the prefix and the rest, mid-body, after the last frame, several in a row. Between
+		// frames they come with gaps of any length (an idle wait must stay idle after them);
+		// inside a frame mostly within T8 (they restart the T8 clock), sometimes beyond.
+		var out []seg
+		off := 0
+		empties := func(at int) {
+			if r.Intn(4) != 0 {
+				return
+			}
+			for k := 1 + r.Intn(3); k > 0; k-- {
+				var gap int
+				if boundary[at] {
+					gap = []int{0, r.Intn(2 * s.t8), s.t8 * (2 + r.Intn(1000))}[r.Intn(3)]
+				} else {
+					gap = r.Intn(s.t8 + 1)
+					if r.Intn(8) == 0 {
+						gap = s.t8 + 1 + r.Intn(2*s.t8)
+					}
+				}
+				out = append(out, seg{gap: time.Duration(gap) * unit})
+			}
+		}
+		for _, g := range s.segs {
+			empties(off)
+			if boundary[off] && len(out) > 0 && len(out[len(out)-1].data) == 0 && r.Intn(2) == 0 {
+				g.gap = time.Duration(s.t8*(2+r.Intn(1000))) * unit // a long idle wait right after an empty Read
+			}
+			out = append(out, g)
+			off += len(g.data)
+		}
+		empties(off)
+		s.segs = out
+	}
 	s.eof = r.Intn(2) == 0
 	atBoundary := boundary[len(stream)]
 	if s.eof {
@@ -319,22 +363,28 @@ func genScript(c *vh.Ctx) script {
 // begun and none before. Written over an array of (byte, time), independent of the library.
 func expect(s script, cap int) (frames [][]byte, end string) {
 	type tb struct {
-		b  byte
-		at int64
+		b     byte
+		at    int64
+		empty bool // a Read that returned no byte
 	}
 	var all []tb
 	t := int64(0)
 	for _, g := range s.segs {
 		t += int64(g.gap / unit)
+		if len(g.data) == 0 {
+			all = append(all, tb{at: t, empty: true})
+		}
 		for _, b := range g.data {
-			all = append(all, tb{b, t})
+			all = append(all, tb{b: b, at: t})
 		}
 	}
 	endAt := t + int64(s.eofGap)
 	pos := 0
 	started := false
 	last := int64(0)
-	// take k bytes; returns nil and the terminal event if the stream ends or stalls first
+	// take k bytes; returns nil and the terminal event if the stream ends or stalls first.
+	// A Read without bytes never starts a frame (an idle wait stays idle, however long); inside a
+	// frame it is line activity like any other Read return: T8 counts from it.
 	take := func(k int) ([]byte, string) {
 		out := make([]byte, 0, k)
 		for len(out) < k {
@@ -352,6 +402,10 @@ func expect(s script, cap int) (frames [][]byte, end string) {
 				return nil, "T"
 			}
 			last = all[pos].at
+			if all[pos].empty {
+				pos++
+				continue
+			}
 			started = true
 			out = append(out, all[pos].b)
 			pos++
@@ -431,6 +485,9 @@ func runScript(c *vh.Ctx, s script) {
 	if conn.fired > 0 {
 		c.Count("S/local-writes-during-a-parked-read")
 	}
+	if conn.emptyReads > 0 {
+		c.Count("S/reads-returning-no-byte")
+	}
 
 	// ---- implementation-level oracle (the generator's own knowledge, no model) ----
 	// failing cases carry the conn behaviours the model is indifferent to, so a replay is complete
@@ -475,6 +532,24 @@ func readerPass(c *vh.Ctx) {
 			writes: []time.Duration{3*unit + unit/2, 5*unit + unit/2, 7*unit + unit/2}, wantEnd: "T"})
 		runScript(c, script{t8: 5, segs: []seg{{gap: 3 * unit, data: frame[:cut]}}, eof: false,
 			writes: []time.Duration{4*unit + unit/2}, wantEnd: "T"})
+	}
+	// Reads returning no byte: between frames followed by an idle gap far beyond T8 (must stay
+	// idle), at every position inside a frame within T8 (no-op for the bytes, restarts T8), and
+	// inside a frame after more than T8 (the deadline fired first)
+	for _, k := range []int{1, 2, 3} {
+		var es []seg
+		for i := 0; i < k; i++ {
+			es = append(es, seg{gap: time.Duration(i) * unit})
+		}
+		segs := append(append([]seg{{0, frame}}, es...), seg{1000 * unit, frame})
+		runScript(c, script{t8: 5, segs: segs, eof: false, wantFrames: [][]byte{frame[4:], frame[4:]}, wantEnd: "I"})
+		segs = append(append([]seg(nil), es...), seg{1000 * unit, frame})
+		runScript(c, script{t8: 5, segs: segs, eof: true, eofGap: 77, wantFrames: [][]byte{frame[4:]}, wantEnd: "E"})
+	}
+	for cut := 1; cut < len(frame); cut++ {
+		runScript(c, script{t8: 5, segs: []seg{{0, frame[:cut]}, {4 * unit, nil}, {4 * unit, nil}, {5 * unit, frame[cut:]}, {3 * unit, nil}, {900 * unit, frame}},
+			eof: false, wantFrames: [][]byte{frame[4:], frame[4:]}, wantEnd: "I"})
+		runScript(c, script{t8: 5, segs: []seg{{0, frame[:cut]}, {6 * unit, nil}, {1 * unit, frame[cut:]}}, eof: false, wantEnd: "T"})
 	}
 	// two frames in one segment, then idle for a very long time, then a third
 	two := append(append([]byte(nil), frame...), frame...)
@@ -572,6 +647,7 @@ func e2ePass(c *vh.Ctx) {
 		type chunk struct {
 			n     int
 			sleep time.Duration
+			zero  int // zero-length Writes before the sleep (between frames, then idle: must stay up)
 		}
 		var plan []chunk
 		idles := 0
@@ -595,7 +671,11 @@ func e2ePass(c *vh.Ctx) {
 			} else if r.Intn(3) == 0 {
 				sl = time.Duration(r.Intn(3)) * time.Millisecond
 			}
-			plan = append(plan, chunk{n, sl})
+			zero := 0
+			if (bounds[p] && r.Intn(2) == 0) || r.Intn(8) == 0 {
+				zero = 1 + r.Intn(3)
+			}
+			plan = append(plan, chunk{n, sl, zero})
 			p += n
 		}
 		if scenario == 1 && stallFrom < 0 {
@@ -604,6 +684,9 @@ func e2ePass(c *vh.Ctx) {
 		go func() {
 			p := 0
 			for _, ch := range plan {
+				for z := 0; z < ch.zero; z++ {
+					_ = peer.Write(nil) // a zero-length Write: the parked reader's Read returns (0, nil)
+				}
 				if ch.sleep > 0 {
 					time.Sleep(ch.sleep)
 				}
